@@ -1184,3 +1184,108 @@ Qed.
 End Init.
 
 End Chain.
+
+(* ---------- chains exactly as ThreadedMailboxProcessor wires them (Model/C06Nets.v), without savers ---------- *)
+Lemma sum_first_zero L : forall i, sum_first (repeat 0 L) i = 0.
+Proof. induction L as [|L IH]; intros [|i]; cbn; auto. Qed.
+Lemma nth_repeat0 L : forall i, nth i (repeat 0 L) 0 = 0.
+Proof. induction L as [|L IH]; intros [|i]; cbn; auto. Qed.
+Lemma flat_map_nil {A B} (f : A -> list B) l : (forall x, In x l -> f x = []) -> flat_map f l = [].
+Proof. induction l as [|a l IH]; cbn; auto. intros H. rewrite H by auto. rewrite IH; auto. Qed.
+
+Section NoSavers.
+Variable sp : chain_spec.
+Let L := length (ch_caps sp).
+Hypothesis Hv : valid_chain sp.
+Hypothesis Hns : ch_nsav sp = repeat 0 L.
+
+Lemma ns_nth i : nth i (ch_nsav sp) 0 = 0.
+Proof. rewrite Hns. apply nth_repeat0. Qed.
+
+Lemma ns_threads :
+  chain_threads sp = map (chain_stage sp) (seq 0 L) ++ [mk_thread (KMain (ch_relay sp)) [(L - 1, 0)]].
+Proof.
+  unfold chain_threads. rewrite flat_map_nil.
+  - rewrite ns_nth. reflexivity.
+  - intros x _. unfold chain_savers_of. rewrite ns_nth. reflexivity.
+Qed.
+
+Lemma ns_stage i : i < L -> nth i (chain_threads sp) dflt_th = chain_stage sp i.
+Proof.
+  intros Hi. rewrite ns_threads, app_nth1 by (rewrite map_length, seq_length; auto).
+  rewrite (nth_indep _ dflt_th (chain_stage sp 0)) by (rewrite map_length, seq_length; auto).
+  rewrite map_nth, seq_nth by auto. reflexivity.
+Qed.
+Lemma ns_main : nth L (chain_threads sp) dflt_th = mk_thread (KMain (ch_relay sp)) [(L - 1, 0)].
+Proof.
+  rewrite ns_threads, app_nth2 by (rewrite map_length, seq_length; auto).
+  rewrite map_length, seq_length, Nat.sub_diag. reflexivity.
+Qed.
+Lemma ns_len : length (chain_threads sp) = S L.
+Proof. rewrite ns_threads, app_length, map_length, seq_length. cbn. lia. Qed.
+Lemma ns_nth_error i t : nth_error (chain_threads sp) i = Some t ->
+  (i < L /\ t = chain_stage sp i) \/ (i = L /\ t = mk_thread (KMain (ch_relay sp)) [(L - 1, 0)]).
+Proof.
+  intros H. assert (Hi : i < S L) by (rewrite <- ns_len; apply nth_error_Some; congruence).
+  pose proof (nth_error_nth_dflt _ _ dflt_th _ H) as E.
+  destruct (Nat.eq_dec i L) as [->|Hne].
+  - right. rewrite ns_main in E. auto.
+  - left. rewrite ns_stage in E by lia. split; [lia | auto].
+Qed.
+
+Lemma ns_box j : j < L ->
+  nth j (chain_boxes sp) dflt_mb = mk_mbox (nth j (ch_caps sp) 1) (ch_lazy sp) [true].
+Proof.
+  intros Hj. unfold chain_boxes.
+  rewrite (nth_indep _ dflt_mb (chain_box sp 0)) by (rewrite map_length, seq_length; auto).
+  rewrite map_nth, seq_nth by auto. cbn [Nat.add]. unfold chain_box. rewrite ns_nth. cbn [repeat].
+  destruct (S j <? length (ch_caps sp)); reflexivity.
+Qed.
+
+Theorem chain_nosav_failure_reaches_caller ft fp c :
+  ft < L -> fp <= ch_N sp ->
+  failure_reaches_caller (chain_net sp true (Some (ft, fp, c)) None) (chain_init sp true (Some (ft, fp, c)) None)
+                         (chain_main sp) (ch_N sp) c.
+Proof.
+  intros Hft Hfp sched st Hr Hq.
+  assert (Hmain : chain_main sp = L).
+  { unfold chain_main. rewrite Hns. fold L. rewrite sum_first_zero. lia. }
+  rewrite Hmain.
+  destruct Hv as [HL [Hlen Hcaps]]. fold L in HL.
+  set (nt := chain_net sp true (Some (ft, fp, c)) None) in *.
+  assert (Hlb : length (chain_boxes sp) = L) by (unfold chain_boxes; rewrite map_length, seq_length; reflexivity).
+  assert (Hkillne : n_kill nt <> []).
+  { cbn. intros E. assert (H0 : length (seq 0 (length (ch_caps sp))) = 0) by (rewrite E; reflexivity).
+    rewrite seq_length in H0. unfold L in HL. lia. }
+  assert (Hbox : forall j, j < L -> exists cap, nth j (chain_boxes sp) dflt_mb = mk_mbox cap (ch_lazy sp) [true] /\ 1 <= cap).
+  { intros j Hj. exists (nth j (ch_caps sp) 1). split; [apply ns_box; auto|]. apply Hcaps. apply nth_In. auto. }
+  assert (Hcov : cover nt (mkSt (chain_boxes sp) (chain_threads sp)) L).
+  { split.
+    - reflexivity.
+    - cbn [mbs]. lia.
+    - intros j Hj. cbn [mbs] in Hj. cbn. apply in_seq. fold L. lia.
+    - intros j Hj. cbn in Hj. apply in_seq in Hj. cbn [mbs]. fold L in Hj. lia.
+    - intros i Hi Hne. cbn [ths] in Hi. rewrite ns_len in Hi. cbn. unfold chain_join. apply in_flat_map.
+      exists i. split; [apply in_seq; fold L; lia | left; reflexivity].
+    - intros Hin. cbn in Hin. unfold chain_join in Hin. apply in_flat_map in Hin. destruct Hin as [x [Hx Hin]].
+      apply in_seq in Hx. fold L in Hx. rewrite ns_nth in Hin. cbn in Hin. destruct Hin as [E|[]]. lia.
+    - intros i t Hi. cbn [ths] in Hi. destruct (ns_nth_error i t Hi) as [[Hlt ->] | [-> ->]].
+      + unfold is_main_k. cbn. split; [discriminate | lia].
+      + unfold is_main_k. cbn. tauto.
+    - intros i t r Hi Hin. cbn [ths] in Hi. cbn [mbs]. rewrite Hlb.
+      destruct (ns_nth_error i t Hi) as [[Hlt ->] | [-> ->]].
+      + destruct i as [|p]; cbn in Hin; [contradiction|]. destruct Hin as [<-|[]]. cbn. lia.
+      + cbn in Hin. destruct Hin as [<-|[]]. cbn. lia. }
+  destruct (chain_core L (ch_N sp) (ch_lazy sp) (ch_relay sp) ft fp c nt HL Hft Hfp eq_refl eq_refl Hkillne
+              (chain_boxes sp) (chain_threads sp) Hlb ns_len Hbox
+              (fun i Hi => ns_stage i Hi) ns_main Hcov sched st Hr Hq) as [Hat Hout].
+  split; [auto|]. split; [auto|].
+  (* there are no savers *)
+  intros i t Hi Hsv. exfalso.
+  assert (Hsig : sig st = sig (mkSt (chain_boxes sp) (chain_threads sp))).
+  { rewrite (sig_run _ _ _ _ Hr). unfold chain_init, ninit. apply sig_start_all. }
+  destruct (sig_thread _ _ _ _ Hsig Hi) as [t0 [Ht0 Es]]. cbn [ths] in Ht0.
+  unfold is_saver in Hsv. replace (t_kind t) with (t_kind t0) in Hsv by (unfold tsig in Es; congruence).
+  destruct (ns_nth_error i t0 Ht0) as [[_ ->] | [_ ->]]; cbn in Hsv; discriminate.
+Qed.
+End NoSavers.
